@@ -394,3 +394,48 @@ def cost_roles(index):
             "loc": "%s:%d" % (fi.path.replace(index.repo + "/", ""), fi.lines[0]),
             "function": name, "kind": "frame", "path": 0, "inputs": {}, "solver_output": None})
     return out
+
+
+# ---------------------------------------------------------------------------------------------
+# identity comparisons
+STREAMS = ["C01", "C02", "C03", "C04", "C08", "C09", "C11", "C12", "C15", "C17", "C18"]
+MODULE_PROPS = {
+    "schedule": ["C%02d" % k for k in range(1, 20)],
+    "basic_schedules": STREAMS + ["C10"],
+    "multistage": STREAMS + ["C05", "C13", "C14"],
+    "mixed": STREAMS + ["C05", "C06", "C16"],
+    "twolevel_binomial": STREAMS + ["C10", "C13"],
+}
+REVOLVE_PROPS = STREAMS + ["C05", "C07", "C19"]
+
+
+def identity_comparisons(index):
+    """`x is y` / `x is not y` is only used against None / True / False or between types.  Identity of
+    integers, floats and strings coincides with equality only by CPython's caching of small values
+    (ints up to 256, interned strings), so such a comparison silently changes meaning beyond them."""
+    out = []
+    for name, fi in sorted(index.funcs.items()):
+        bad = []
+        for n in ast.walk(fi.node):
+            if not isinstance(n, ast.Compare):
+                continue
+            operands = [n.left] + list(n.comparators)
+            for k, op in enumerate(n.ops):
+                if not isinstance(op, (ast.Is, ast.IsNot)):
+                    continue
+                a, b = operands[k], operands[k + 1]
+
+                def fine(e):
+                    return (isinstance(e, ast.Constant) and (e.value is None or isinstance(e.value, bool))) or \
+                        (isinstance(e, ast.Call) and isinstance(e.func, ast.Name) and e.func.id == "type")
+                if not (fine(a) or fine(b)):
+                    bad.append("line %d: %s" % (n.lineno, ast.unparse(n)))
+        mod = fi.module
+        out.append({
+            "name": "frame.identity#%s" % name, "props": MODULE_PROPS.get(mod, REVOLVE_PROPS),
+            "status": "discharged" if not bad else "failed", "backend": "ast-dataflow", "time_s": 0.0,
+            "model": None if not bad else {"identity_comparisons": bad},
+            "clause": "identity comparison only against None / True / False or between types",
+            "loc": "%s:%d" % (fi.path.replace(index.repo + "/", ""), fi.lines[0]),
+            "function": name, "kind": "frame", "path": 0, "inputs": {}, "solver_output": None})
+    return out
